@@ -87,6 +87,7 @@ pub fn type_name(s: &ArrSpec) -> &'static str {
         ArrSpec::Sum(_) => "Vec<ArrivalBound>",
         ArrSpec::Slice(_) => "[ArrivalBound]",
         ArrSpec::SumOf(..) => "arrival::sum_of",
+        ArrSpec::OpaqueDefault { .. } => "ArrivalBound::steps_iter(default)",
     }
 }
 
@@ -227,6 +228,47 @@ pub fn menu(quick: bool) -> Vec<ArrSpec> {
     v
 }
 
+pub fn sparse_menu() -> Vec<ArrSpec> {
+    let leaves = vec![
+        ArrSpec::Curve { dmin: vec![1, 66] },
+        ArrSpec::Curve { dmin: vec![70, 200] },
+        ArrSpec::Curve { dmin: vec![0, 0, 130, 130, 131] },
+        ArrSpec::ExtCurve { dmin: vec![1, 66] },
+        ArrSpec::ExtCurve { dmin: vec![12, 78, 3000] },
+        ArrSpec::Sporadic { t: 97, j: 130 },
+        ArrSpec::Sporadic { t: 1000, j: 2 },
+        ArrSpec::Periodic { t: 1003 },
+        ArrSpec::Prefix { horizon: 200, steps: vec![(1, 1), (80, 2), (150, 3)] },
+        ArrSpec::Jitter { inner: Box::new(ArrSpec::Periodic { t: 300 }), j: 77 },
+    ];
+    let mut v = leaves.clone();
+    for l in &leaves {
+        v.push(ArrSpec::OpaqueDefault { inner: Box::new(l.clone()) });
+    }
+    v.push(ArrSpec::Sum(vec![ArrSpec::Periodic { t: 1000 }, ArrSpec::Periodic { t: 1003 }]));
+    v.push(ArrSpec::Slice(vec![ArrSpec::Periodic { t: 1000 }, ArrSpec::Periodic { t: 1003 }]));
+    v.push(ArrSpec::SumOf(Box::new(ArrSpec::Periodic { t: 1000 }), Box::new(ArrSpec::Sporadic { t: 1003, j: 66 })));
+    v.push(ArrSpec::OpaqueDefault { inner: Box::new(ArrSpec::Sum(vec![ArrSpec::Periodic { t: 1000 }, ArrSpec::Periodic { t: 1003 }])) });
+    v.push(ArrSpec::Propagated { inner: Box::new(ArrSpec::OpaqueDefault { inner: Box::new(ArrSpec::Curve { dmin: vec![1, 66] }) }), j: 5 });
+    // long runs of equal entries (sixteen and more simultaneous arrivals)
+    let mut z = vec![0u64; 15];
+    z.push(40);
+    v.push(ArrSpec::ExtCurve { dmin: z.clone() });
+    v.push(ArrSpec::Curve { dmin: z.clone() });
+    let mut z2 = vec![0u64; 21];
+    z2.extend([9, 9, 30]);
+    v.push(ArrSpec::ExtCurve { dmin: z2.clone() });
+    v.push(ArrSpec::Jitter { inner: Box::new(ArrSpec::ExtCurve { dmin: z }), j: 3 });
+    // prefix objects with many steps
+    v.push(ArrSpec::PrefixFromBoundUntil { inner: Box::new(ArrSpec::Sporadic { t: 1, j: 0 }), horizon: 40 });
+    v.push(ArrSpec::PrefixFromBoundUntil { inner: Box::new(ArrSpec::Sporadic { t: 2, j: 5 }), horizon: 90 });
+    v.push(ArrSpec::CurveFromPrefix { inner: Box::new(ArrSpec::PrefixFromBoundUntil { inner: Box::new(ArrSpec::Sporadic { t: 2, j: 5 }), horizon: 90 }) });
+    // dense user-defined models, too
+    v.push(ArrSpec::OpaqueDefault { inner: Box::new(ArrSpec::Sporadic { t: 3, j: 7 }) });
+    v.push(ArrSpec::OpaqueDefault { inner: Box::new(ArrSpec::ExtCurve { dmin: vec![0, 2, 5] }) });
+    v
+}
+
 pub fn rb_menu(quick: bool) -> Vec<RbSpec> {
     let arrs: Vec<ArrSpec> = leaf_menu(quick).into_iter().step_by(if quick { 9 } else { 4 }).collect();
     let costs = vec![
@@ -319,7 +361,11 @@ pub fn run(ctx: &mut Ctx) -> (String, Value, Vec<String>) {
     let mut evals = 0u64;
     let mut nontrivial = 0u64;
     let mut samples = vec![];
-    for spec in &specs {
+    // sparse models (step-free stretches of dozens to thousands of ticks), among them models
+    // that rely on the trait's default steps_iter, up to a horizon of 3200
+    let sparse = sparse_menu();
+    let jobs: Vec<(&ArrSpec, u64)> = specs.iter().map(|x| (x, h)).chain(sparse.iter().map(|x| (x, 3200u64))).collect();
+    for (spec, h) in jobs {
         evals += 1;
         let sp = spec.clone();
         let name = type_name(spec);
@@ -405,7 +451,7 @@ pub fn run(ctx: &mut Ctx) -> (String, Value, Vec<String>) {
     let cov = json!({
         "evaluations": evals,
         "distinct_nontrivial": nontrivial,
-        "rule": format!("every arrival bound ({}) and request bound ({}) of the box is one evaluation: all items of steps_iter up to {h} vs the brute-force set of increase points; non-trivial = more than two steps below the horizon", specs.len(), rbs.len()),
+        "rule": format!("every arrival bound ({}) and request bound ({}) of the box is one evaluation: all items of steps_iter up to {h} (sparse and user-defined models with the default steps_iter: up to 3200) vs the brute-force set of increase points; non-trivial = more than two steps below the horizon", specs.len(), rbs.len()),
         "arrival_bounds": specs.len(),
         "request_bounds": rbs.len(),
         "horizon": h,
